@@ -63,7 +63,8 @@ def certHs (c : Case) : Verdict :=
   let echAccepted := ech = "acc"
   let connName := if ech = "rej" then pub else sn
   let leafKind := ((i.getD "leaf" "?").splitOn ":").headD "?"
-  let tag := s!"{if i.getD "id" "?" = "Golang-0" then "go" else "utls"},{i.getD "vers" "?"},{ech},{i.getD "mode" "?"},{leafKind},{if resumedObs then "resumed" else cObs}"
+  let nk := if i.getD "nosni" "0" = "1" then "nosni" else if o.getD "sni" "?" = "-" then "ip" else "dns"
+  let tag := s!"{if i.getD "id" "?" = "Golang-0" then "go" else "utls"},{i.getD "vers" "?"},{nk},{ech},{i.getD "mode" "?"},{leafKind},{if resumedObs then "resumed" else cObs}"
   let tkey := if skipt then "na" else "cfg"
   -- ---- monitors on the implementation's output, as the property states them
   let expName := specName sn nvTok
